@@ -168,3 +168,24 @@ def sortPairs : List (Bytes × Bytes) → List (Bytes × Bytes)
   | x :: xs => insertPair x (sortPairs xs)
 
 end SigV4.Rust
+
+namespace SigV4.Rust
+
+/-- `it.next()` on a byte iterator kept as the list of bytes still to come. -/
+def iterNext : Bytes → Option (UInt8 × Bytes)
+  | [] => none
+  | x :: rest => some (x, rest)
+
+/-- `u8::from_str_radix(s, 16)` for the two-character strings it is given here: two hexadecimal digits, or — the standard
+parser accepts a sign — `+` followed by one hexadecimal digit; anything else is an error. -/
+def u8FromStrRadix16 (s : Bytes) : Option UInt8 :=
+  match s with
+  | [h1, h2] =>
+    if h1 = 0x2B then hexVal h2
+    else
+      match hexVal h1, hexVal h2 with
+      | some a, some b => some (a * 16 + b)
+      | _, _ => none
+  | _ => none
+
+end SigV4.Rust
